@@ -59,7 +59,8 @@ let body b =
 let fault = function
   | "create" -> Files.FCreate | "start" -> Files.FStart | "finish" -> Files.FFinish | _ -> Files.FNone
 let effect = function
-  | Files.ENone -> "none" | Files.EStored -> "stored" | Files.EResidue -> "residue" | Files.EServed -> "served"
+  | Files.ENone -> "none" | Files.EStored -> "stored" | Files.EResidue -> "residue"
+  | Files.EResidueNoBytes -> "residue-nobytes" | Files.EServed -> "served"
 let status = function
   | Files.Reply (c, _) -> string_of_z c
   | Files.Crash _ -> "CRASH"
@@ -122,9 +123,15 @@ let handle (w : string list) : string =
     let (s', o) = Files.apply_upload !st r (id_of_index k) (z_of_int 0) [] in
     st := s';
     (match Files.effect_of o with
-     | Files.EStored | Files.EResidue -> uploaded := k :: !uploaded
+     | Files.EStored | Files.EResidue | Files.EResidueNoBytes -> uploaded := k :: !uploaded
      | _ -> ());
     "UP " ^ status o ^ " " ^ effect (Files.effect_of o)
+  | ["INFLIGHT"; ks; _; _] ->
+    (* an upload between StartUpload and FinishUpload: record in status 'started', bytes written *)
+    let k = int_of_string ks in
+    st := Files.step !st (Files.OStart (id_of_index k, z_of_int 0, []));
+    uploaded := k :: !uploaded;
+    "INFLIGHT ok"
   | "SV" :: rest ->
     let m = kv rest in
     let g = get m in
